@@ -19,3 +19,4 @@ import BS.Properties.C14l
 #print axioms BS.Limiter.idle_all_tokens
 #print axioms BS.Limiter.idle_serves_any
 #print axioms BS.Limiter.release_unheld
+#print axioms BS.Limiter.blocked_has_holder
